@@ -907,11 +907,12 @@ func (d *msgpackDecDriver[T]) decodeTime(clen int) (t time.Time) {
 }
 
 func (d *msgpackDecDriver[T]) DecodeExt(rv interface{}, basetype reflect.Type, xtag uint64, ext Ext) {
-	xbs, _, _, ok := d.decodeExtV(ext != nil, xtag)
+	xbs, _, state, ok := d.decodeExtV(ext != nil, xtag)
 	if !ok {
 		return
 	}
 	if ext == SelfExt {
+		xbs = d.d.sideDecodeInput(xbs, state)
 		sideDecode(d.h, &d.h.sideDecPool, func(sd decoderI) { oneOffDecode(sd, rv, xbs, basetype, true) })
 	} else {
 		ext.ReadExt(rv, xbs)
